@@ -142,8 +142,14 @@ impl Sender {
     }
 
     pub fn seal(&mut self, k: usize, pt: &[u8]) -> Vec<u8> {
-        let mut dst = vec![0u8; pt.len() + OVERHEAD];
+        // `dst` must be *at least* plaintext + overhead long: senders reuse scratch buffers. The
+        // buffer is oversized by 0..12 bytes (a function of the message, no PRNG draw) and dirty;
+        // the ciphertext is its first plaintext + overhead bytes.
+        let need = pt.len() + OVERHEAD;
+        let extra = (pt.len() * 7 + k) % 5 * 3;
+        let mut dst = vec![0xA5u8; need + extra];
         self.client.seal(&mut self.ctx[k], &mut dst, pt).expect("sender seal");
+        dst.truncate(need);
         dst
     }
 
